@@ -53,6 +53,9 @@ func (h *Handle) OnAPS(self any) error {
 }
 func (h *Handle) OnRun(self any) error { return h.C.Callback("run", h.ID, self) }
 
+// OnFactoryHook is the PostProcessComponentFactory callback of a generated component.
+func (h *Handle) OnFactoryHook() error { return h.C.Callback("factorypp", h.ID, nil) }
+
 // OnProc is the callback of a generated component that is itself an observing
 // post-processor: it logs (and may fail through the fault plan) and returns the component.
 func (h *Handle) OnProc(kind string, component any, name string) (any, error) {
